@@ -257,8 +257,17 @@ def render_impl(n: Netlist, mode: str) -> str:
     return " ".join(out)
 
 
-def cmp_lines(impl: str, model: str, mode: str, tol: float) -> tuple[bool, bool, str]:
-    """(close enough, exactly equal, first difference)."""
+def wl_scale(n) -> float:
+    """magnitude against which the wire length is compared: rounding of the mean of the centres is amplified by the
+    weight, so the natural scale is Σ_nets w · k · max|coordinate| (not the wire length itself, which may be 0)."""
+    if n is None or isinstance(n, str):
+        return 1.0
+    cmax = max([1.0] + [abs(float(v)) for m in n.modules if m.center is not None for v in (m.center.x, m.center.y)])
+    return max(1.0, sum(abs(float(e.weight)) * len(e.modules) * cmax for e in n.edges))
+
+
+def cmp_lines(impl: str, model: str, mode: str, tol: float, wlscale: float = 1.0) -> tuple[bool, bool, str]:
+    """(close enough, exactly equal, first difference); `wlscale` = scale of the token after `wl`."""
     if impl == model:
         return True, True, ""
     ta, tb = impl.split(), model.split()
@@ -272,7 +281,8 @@ def cmp_lines(impl: str, model: str, mode: str, tol: float) -> tuple[bool, bool,
                 fx, fy = (hex2f(x[1:]), hex2f(y[1:])) if mode == "F" else (Fraction(x[1:]), Fraction(y[1:]))
             except Exception:
                 return False, False, f"token {j}: {x} vs {y}"
-            if abs(float(fx) - float(fy)) <= tol * max(1.0, abs(float(fx)), abs(float(fy))):
+            scale = max(1.0, abs(float(fx)), abs(float(fy)), wlscale if j > 0 and ta[j - 1] == "wl" else 1.0)
+            if abs(float(fx) - float(fy)) <= tol * scale:
                 continue
             return False, False, f"token {j}: {float(fx)!r} vs {float(fy)!r} (context {' '.join(ta[max(0, j - 6):j])})"
         return False, False, f"token {j}: {x} vs {y} (context {' '.join(ta[max(0, j - 6):j])})"
